@@ -451,6 +451,57 @@ func registerExternals(m *Machine) {
 		return nil
 	}
 
+	// ---- hash/fnv (FNV-64a): real on concrete bytes, abstract once a byte is symbolic ----
+	type fnvState struct {
+		s string
+		b []*sym.Term
+	}
+	fnvOf := func(m *Machine, p *value) *fnvState {
+		st, _ := m.Scratch["fnv"].(map[*value]*fnvState)
+		if st == nil {
+			st = map[*value]*fnvState{}
+			m.Scratch["fnv"] = st
+		}
+		if st[p] == nil {
+			st[p] = &fnvState{}
+		}
+		return st[p]
+	}
+	e["(*hash/fnv.sum64a).Write"] = func(m *Machine, fr *frame, a []value) value {
+		p := a[0].(*value)
+		st := fnvOf(m, p)
+		h := bitsOf(*p)
+		data := a[1].([]value)
+		for _, c := range data {
+			b := byte(bitsOf(c))
+			h ^= uint64(b)
+			h *= 1099511628211
+			st.s += string([]byte{b})
+			if sv, ok := c.(*symv); ok {
+				st.b = append(st.b, sv.t)
+			} else {
+				st.b = append(st.b, nil)
+			}
+		}
+		*p = h
+		return tuple{int64(len(data)), iface{}}
+	}
+	e["(*hash/fnv.sum64a).Sum64"] = func(m *Machine, fr *frame, a []value) value {
+		p := a[0].(*value)
+		st := fnvOf(m, p)
+		abstract := m.PS().Params["abstracthash"] != ""
+		for _, t := range st.b {
+			if t != nil {
+				abstract = true
+			}
+		}
+		if abstract {
+			m.Stubs["abstract:hash/fnv.Sum64"]++
+			return &hashv{c: bitsOf(*p), s: st.s, b: append([]*sym.Term(nil), st.b...)}
+		}
+		return bitsOf(*p)
+	}
+
 	// ---- regexp (opaque host objects) ----
 	e["regexp.Compile"] = func(m *Machine, fr *frame, a []value) value {
 		if h, ok := m.Scratch["regexpCompileHook"].(func(m *Machine, fr *frame, pat value) value); ok {
@@ -678,6 +729,9 @@ func (m *Machine) hostValue(fr *frame, v value) interface{} {
 		}
 		// error / Stringer
 		for _, name := range []string{"Error", "String"} {
+			if sel := m.Prog.MethodSets.MethodSet(v.t).Lookup(nil, name); sel == nil {
+				continue
+			}
 			if f := m.Prog.LookupMethod(v.t, nil, name); f != nil && f.Signature.Params().Len() == 0 && f.Signature.Results().Len() == 1 && isString(f.Signature.Results().At(0).Type()) {
 				if p, ok := v.v.(*value); ok && p == nil {
 					return "<nil>"
